@@ -11,10 +11,14 @@
 (*             consecutive lengths)                                        *)
 (* The pin-sequence part of the criterion is decided on the exported       *)
 (* automaton (machine C15_PinLanguage).                                    *)
+(* Extras[basis]: permutations the harness adds to the basis to present    *)
+(* the same class by a non-minimal basis; NonMinimalSame checks that each  *)
+(* of them really contains a basis element (so the class is the same) and  *)
+(* that the special-family verdict and the simples do not move.            *)
 (***************************************************************************)
-EXTENDS Simples, Json
+EXTENDS Simples, Json, TLC
 
-CONSTANTS Inputs, MaxN
+CONSTANTS Inputs, MaxN, Extras
 VARIABLES basis
 vars == <<basis>>
 Init == basis \in Inputs
@@ -26,6 +30,11 @@ SimpleCounts == [n \in 4..MaxN |-> Cardinality(SSimplesOfClass(basis, n))]
 FamiliesGiveSimples == SSpecialInfinite(basis) => \A n \in 4..MaxN : n % 2 = 0 => SimpleCounts[n] > 0
 \* the verdict on special families is invariant under the eight symmetries
 SymmetryInvariant == \A g \in DNames : SSpecialFinite(DSymSet(g, basis)) = SSpecialFinite(basis)
+\* non-minimal presentations used by the harness describe the same class and get the same verdict
+NonMinimalSame == \E X \in {Extras[basis]} :
+                     /\ \A c \in X : \E b \in basis : PContains(c, b)
+                     /\ SSpecialFinite(basis \cup X) = SSpecialFinite(basis)
+                     /\ \A n \in 4..(IF MaxN < 6 THEN MaxN ELSE 6) : SSimplesOfClass(basis \cup X, n) = SSimplesOfClass(basis, n)
 EmitState == PrintT(ToJson([basis |-> basis, special |-> SSpecialFinite(basis),
                             simples |-> [n \in 1..(MaxN - 3) |-> SimpleCounts[n + 3]],
                             syms |-> {DSortedTuple(DSymSet(g, basis)) : g \in DNames}]))
